@@ -214,6 +214,14 @@ class FieldEmit:
         self.fv = fv
 
 
+class EmitTail:
+    """serialised field without its leading ':'  (TAG:content)"""
+    __slots__ = ("fv",)
+
+    def __init__(self, fv):
+        self.fv = fv
+
+
 class Alt:
     """Guarded alternatives of values that cannot be merged structurally (strings, enum values...).
     Guards are mutually exclusive; exhaustive under the path on which the value is used."""
@@ -648,6 +656,15 @@ class Machine:
         if ty not in self.okf:
             self.okf[ty] = [z3.Bool("ok_%s_%d" % (ty, i)) for i in range(self.N)]
         vs = self.okf[ty]
+        idx = self.topos(idx)
+        return Or(*[And(idx.bits[i], vs[i]) for i in range(self.N)])
+
+    def content_pred(self, key, idx):
+        if not hasattr(self, "_cpred"):
+            self._cpred = {}
+        if key not in self._cpred:
+            self._cpred[key] = [z3.Bool("content_%d_%d" % (len(self._cpred), i)) for i in range(self.N)]
+        vs = self._cpred[key]
         idx = self.topos(idx)
         return Or(*[And(idx.bits[i], vs[i]) for i in range(self.N)])
 
@@ -1594,6 +1611,36 @@ class Machine:
         if isinstance(recv, FieldV):
             if meth == "to_swift_string":
                 return FieldEmit(recv)
+            ty = self.prog.resolve_type(recv.ty)
+            m = self.prog.fns.get((ty, meth, True)) or self.prog.fns.get((ty, meth, False))
+            if m is not None and meth not in ("parse", "parse_with_variant"):
+                val, _ = self.call_fn(m[0], [recv] + list(args), self.live(fr, guard), self_ty=ty)
+                return val
+            if meth == "get_variant_tag":
+                return Opt(False, None)      # trait default
+        if isinstance(recv, TokRef):
+            # inspection of a field's content: uninterpreted (one free Bool per predicate and token)
+            if meth in ("contains", "starts_with", "ends_with", "is_empty", "is_ascii"):
+                key = "%s(%s)" % (meth, ",".join(repr(a) for a in args if isinstance(a, (str, int))))
+                return self.content_pred(key, recv.idx)
+            if meth in ("lines", "chars", "split", "trim", "len", "bytes", "as_bytes", "split_whitespace", "char_indices"):
+                return Opaque("content." + meth)
+        if isinstance(recv, Opaque) and recv.what.startswith("content."):
+            return Opaque(recv.what + "." + meth)
+        if isinstance(recv, FieldEmit) and meth == "strip_prefix" and args and args[0] == ":":
+            return Opt(True, EmitTail(recv.fv))
+        if isinstance(recv, EmitTail) and meth == "starts_with":
+            conds = []
+            for g, s in alt_of(args[0]):
+                if not isinstance(s, str):
+                    raise Unsupported("starts_with on a serialised field")
+                for ga, t in self.emit_tag_alts(recv.fv):
+                    full = t + ":"
+                    if full.startswith(s):
+                        conds.append(And(g, ga))
+                    elif s.startswith(full):
+                        raise Unsupported("starts_with(%r) looks into the content of a serialised field" % (s,))
+            return Or(*conds)
         if isinstance(recv, FieldEmit):
             if meth == "starts_with":
                 conds = []
